@@ -496,6 +496,7 @@ func runCheck(spec *CheckSpec, tier string) int {
 		engineErrs                                                                                   []string
 		truncated                                                                                    int
 		vacuous, skipped                                                                             int
+		inconclJobs                                                                                  []string
 		samples                                                                                      []interface{}
 		perHarness                                                                                   map[string]int
 	}{ends: map[string]int{}, reached: map[string]int{}, funcs: map[string]bool{}, stubs: map[string]bool{}, perHarness: map[string]int{}}
@@ -540,6 +541,9 @@ func runCheck(spec *CheckSpec, tier string) int {
 		}
 		if r.EngineErr != "" {
 			agg.engineErrs = append(agg.engineErrs, fmt.Sprintf("%s%v: %s", r.Harness, r.Params, r.EngineErr))
+		}
+		if r.Inconclusive > 0 {
+			agg.inconclJobs = append(agg.inconclJobs, fmt.Sprintf("%s%v (%d)", r.Harness, r.Params, r.Inconclusive))
 		}
 		if r.Truncated && len(r.Violations) == 0 {
 			agg.truncated++
@@ -751,6 +755,9 @@ func runCheck(spec *CheckSpec, tier string) int {
 	}
 	cov["discharged_without_solver"] = agg.trivial
 	cov["inconclusive"] = agg.inconcl
+	if len(agg.inconclJobs) > 0 {
+		cov["inconclusive_jobs"] = agg.inconclJobs
+	}
 	cov["solver_queries"] = agg.queries
 	cov["answered_from_cached_models"] = agg.hits
 	cov["solver_seconds"] = round3(agg.solverS)
@@ -819,7 +826,7 @@ func runCheck(spec *CheckSpec, tier string) int {
 			fmt.Println("  ", e)
 		}
 		if agg.inconcl > 0 {
-			fmt.Println("   solver returned unknown on", agg.inconcl, "queries")
+			fmt.Println("   solver returned unknown on", agg.inconcl, "queries:", strings.Join(agg.inconclJobs, " "))
 		}
 		if agg.truncated > 0 {
 			fmt.Println("   path budget exhausted on", agg.truncated, "jobs")
